@@ -521,6 +521,7 @@ PROPS["C20"] = {
     "drivers": [
         {"driver": "conc", "trace": "Trace_Conc", "shards": 1, "build": ("-race",), "race": True, "tags": ("verif",)},
         {"driver": "conchammer", "trace": "Trace_Conc", "shards": 1, "build": ("-race",), "race": True, "race_halt": True, "tags": ("verif",)},
+        {"driver": "conchammer", "trace": "Trace_Conc", "shards": 1, "build": ("-race",), "race": True, "race_halt": True, "tags": ("verif", "purego")},
         {"driver": "conc", "trace": "Trace_Conc", "shards": 1, "build": ("-race",), "race": True, "tags": ("verif", "purego"), "tiers": ("thorough",)},
     ],
     "require_classes": {"quick": ["base", "call", "frame_key", "frame_table", "frame_other", "init", "race_build", "many_goroutines"]},
